@@ -496,3 +496,8 @@ def run(ctx):
     # listener's logLevel property is an instance of C14 (verdicts), everything else is reported as observation
     import ext_logger
     ext_logger.run(ctx)
+
+    # how a property access finds its property (MetaLookup.tla, hosted by C05): in C14's scope is that a write by name
+    # or by id reaches the property it names and that its change event travels on that property's id
+    import ext_metalookup
+    ext_metalookup.run(ctx, "C14")
